@@ -150,3 +150,16 @@ def flat_unflat_hints(ids, dims):
         out.append(z3.And(nxt / zi(dims[t]) == acc, nxt % zi(dims[t]) == zi(ids[t])))
         acc = nxt
     return out
+
+
+def module_containers(E, relpath):
+    """Snapshot of the mutable module-level containers (dict / list / set) of an interpreted repository module: their length and keys.
+    Used for 'keeps no state between calls' frame obligations (a result must not depend on the history of earlier calls)."""
+    out = {}
+    env = E.load_module(relpath).env
+    for k, v in env.vars.items():
+        if isinstance(v, dict):
+            out[k] = ("dict", len(v), tuple(sorted(repr(x)[:60] for x in v.keys())))
+        elif isinstance(v, (list, set)):
+            out[k] = (type(v).__name__, len(v), ())
+    return out
